@@ -253,6 +253,22 @@ PROPS["C09"] = {
 }
 
 
+PROPS["C11"] = {
+    "level": "exploration",
+    "budget_s": {"quick": 70, "thorough": 2400},
+    "modes": [{"name": "", "runs": {"quick": 2500, "thorough": 60000}, "chunk": 100},
+              {"name": "reject", "runs": {"quick": 3000, "thorough": 60000}, "chunk": 500}],
+    "rule": ("mode '' (simulation, tier E): one run = a typed OPL program (2-4 namespaces; relations typed with namespaces and SubjectSet<T,R>, unions; permissions over includes / permits / traverse into related and permits) that keto's real parser and type checker ACCEPT (others are skipped and counted), "
+             "default or strict mode, a type-conforming store, and a check on EVERY declared (namespace, relation) x 3 objects under 1 (quick) / 3 (thorough) tape-chosen schedules (which sub-check result the checkgroup sees first decides whether an error surfaces). Oracle: no result carries a schema error ('relation ... does not exist', 'not implemented'). "
+             "mode 'reject' (NOT simulation - a plain seeded generator check, reported separately): one reference of an accepted program (type namespace, SubjectSet namespace / relation, includes, permits, traverse relation, traverse computed relation) is replaced by an undeclared name; Parse must return errors, one of them at the replaced token. "
+             "non-trivial = program has rewrites and the store is non-empty; distinct = hash of (program, store)."),
+    "probes": ["probe_traverse_over_subjectset_type", "strict_cases", "mutated_type-namespace", "mutated_subjectset-relation", "mutated_includes", "mutated_traverse-rel", "mutated_traverse-computed"],
+    "real": REAL_E + ["internal/schema parser and type checker (real, decides acceptance)"], "stub": STUB_E,
+    "fault_kinds": {},
+    "assumptions": ["a schema error is recognised by its message ('does not exist' / 'not implemented' / bad-request reason)", "mode 'reject' has no schedule, fault or history: it is input generation, included for completeness of the property and labelled so"],
+}
+
+
 def evidence(prop, spec, tier, seed, records, deaths, unfinished, planned, wall_s, sim_wall_s, build_s, nworkers, n_new, known_hits):
     runs = 0
     execs = 0
@@ -339,6 +355,9 @@ def evidence(prop, spec, tier, seed, records, deaths, unfinished, planned, wall_
 
 SIM = "deterministic simulation with fault injection"
 MANIFEST_TEXT = {
+ "C11": {"text": "seeded typed OPL programs accepted by the real type checker, conforming stores, every declared (namespace, relation) checked under tape-chosen schedules: no schema error may surface; the rejection half is a plain generator check (not simulation), reported separately in the evidence",
+         "note": "acceptance is decided by keto's own parser; programs it rejects are skipped; one open known finding (KF-15) is reported as KNOWN-FINDING",
+         "technique": SIM + " for the run-time half (seeded scheduler at the storage seam); seeded generator check for the rejection half"},
  "C09": {"text": "seeded stores and depths with the storage order (shard ids) varied per execution; tree soundness, expand-once, depth, completeness against a reachability reference, agreement with check and with the REST/gRPC transports",
          "note": "narrow simulation target: the expand engine is sequential, the only nondeterminism is the storage order and paging; no faults",
          "technique": SIM + " (storage-order search only): seeded uuid seam + paging knob, reachability reference model"},
